@@ -267,5 +267,17 @@ def check(run, prog):
                    ok and st_ok, found=str([str(sp.simplify(g(j))) for j in range(min(3, nchan))]),
                    expected=str([str(sp.simplify(f0(j))) for j in range(min(3, nchan))]), nontrivial=True)
     run.floor("R4", "Stokes component selections examined", n_st, 8)
+    # the frequency metadata of a slice is computed and stored in double precision: it is never re-cast to the dtype the original's
+    # Quantity happens to have (a float32 or integer-MHz centre frequency would move the labels of the slice)
+    z32 = make_signal(prog, "RadioSignal", n=nsample, nchan=6, freq_align="bottom",
+                      center_freq=Num(CF * Hz, kind="quantity", dtype=ExtV("numpy.float32")))
+    ev = ck.evaluator()
+    out = ck.attempt("R3", gi.where, "z[:, 1:4] with a centre frequency held as float32", "evaluates",
+                     lambda: ev.getitem(z32, TupleV([SliceV(NONE, NONE, NONE), SliceV(Num(1), Num(4), NONE)]), FR()), ev=ev)
+    if out is not None:
+        narrowed = [t for t in ev.trace if t[0] == "quantity-dtype"]
+        cfo = out.attrs.get("_center_freq")
+        ck.same("R3", gi.where, "z[:, 1:4] with a centre frequency held as float32", "the new centre frequency is not cast to the original's (narrower) dtype",
+                not narrowed, found=str([(t[1], repr(t[2])) for t in narrowed])[:200] or None, nontrivial=True)
     run.extra["decided_by"] = ck.how
     run.extra["channel_ranges_examined"] = n_slices
